@@ -411,6 +411,48 @@ func C14(c *core.Ctx) {
 		}
 		c.Decide(ok, "R14.1", "hash-feeds-type-then-value", p.Pos(hi.Pos()), "HashInto writes the 8-byte big-endian type, then the value", "Component.HashInto does not feed the 8-byte type followed by the value bytes: equal names may hash differently or different types collide systematically")
 	}
+	// the pooled hasher protocol: a hasher is clean when it is used — because its user
+	// resets it after taking it (checked per user below), or because EVERY hand-back to the
+	// pool resets it first (then no user needs to)
+	putsClean, nPuts := true, 0
+	for _, g := range p.FuncsIn(core.ModPath + "/std/encoding") {
+		core.Instrs(g, func(in ssa.Instruction) {
+			ci, isC := in.(ssa.CallInstruction)
+			if !isC {
+				return
+			}
+			id, okID := core.Callee(ci.Common())
+			if !okID || id.Pkg != "sync" || id.Recv != "Pool" || id.Name != "Put" {
+				return
+			}
+			nPuts++
+			if _, isDefer := in.(*ssa.Defer); isDefer {
+				putsClean = false // runs at exit, after the hasher was written to
+				return
+			}
+			_, a := core.CallArgs(ci.Common())
+			isResetOf := func(x ssa.Instruction) bool {
+				c2, ok := x.(ssa.CallInstruction)
+				if !ok || !c2.Common().IsInvoke() || c2.Common().Method.Name() != "Reset" {
+					return false
+				}
+				for _, l := range (&core.Slicer{P: p}).Leaves(a[0]) {
+					for _, l2 := range (&core.Slicer{P: p}).Leaves(c2.Common().Value) {
+						if l.Val == l2.Val {
+							return true
+						}
+					}
+				}
+				return false
+			}
+			if !core.Precedes(g, in, isResetOf) {
+				putsClean = false
+			}
+		})
+	}
+	if nPuts == 0 {
+		putsClean = false
+	}
 	for _, fnm := range []string{"Hash", "PrefixHash"} {
 		fn := c.Fn("R14.1", "std/encoding", "Name", fnm)
 		if fn == nil {
@@ -434,7 +476,14 @@ func C14(c *core.Ctx) {
 		if ok {
 			h := loopHeader(feed.Block())
 			ok = h != nil && everyIterationPasses(fn, h, func(in ssa.Instruction) bool { return in == ssa.Instruction(feed) })
-			ok = ok && len(resets) == 1 && !core.InLoop(resets[0].Block()) && core.PrecedesDeep(fn, feed, func(in ssa.Instruction) bool { return in == resets[0] })
+			switch {
+			case len(resets) == 1:
+				ok = ok && !core.InLoop(resets[0].Block()) && core.PrecedesDeep(fn, feed, func(in ssa.Instruction) bool { return in == resets[0] })
+			case len(resets) == 0:
+				ok = ok && putsClean // nobody hands a used hasher back without resetting it
+			default:
+				ok = false
+			}
 		}
 		c.Decide(ok, "R14.1", "name-"+fnm+"-feeds-every-component", p.Pos(fn.Pos()), "one Reset, then HashInto of every component in order", "Name."+fnm+" does not reset once and then feed every component: the hash is not a function of the name (or of the prefix)")
 		if fnm == "PrefixHash" && ok {
@@ -487,6 +536,30 @@ func C14(c *core.Ctx) {
 				switch x := in.(type) {
 				case ssa.CallInstruction:
 					id, ok := core.Callee(x.Common())
+					nCmp++
+					if ok && id.Pkg == "unicode" && id.Name != "IsDigit" {
+						// a Unicode classifier is an ASCII table only behind a test that the
+						// rune is ASCII (case r > unicode.MaxASCII: return false)
+						ascii := &core.Atom{Name: "rune<=127", Match: func(cond ssa.Value) (int, int) {
+							op, _, y, okC := core.Cmp(cond)
+							k, isK := core.ConstInt(y)
+							if !okC || !isK {
+								return 0, 0
+							}
+							switch {
+							case (op == token.LEQ && k == 127) || (op == token.LSS && k == 128):
+								return 1, -1
+							case (op == token.GTR && k == 127) || (op == token.GEQ && k == 128):
+								return -1, 1
+							}
+							return 0, 0
+						}}
+						if g := core.Gate(fn, []ssa.Instruction{in}, core.Lit{A: ascii, Want: true}); g.OK && g.PassEdges > 0 {
+							return
+						}
+						bad = "calls " + id.String() + " on a rune that was not shown to be ASCII"
+						return
+					}
 					if !ok || !(id.Pkg == "std/encoding" && id.Name == "IsAlphabet") && !(id.Pkg == "strings" && id.Name == "IndexByte") && !(id.Pkg == "strings" && id.Name == "ContainsRune") &&
 						!(id.Pkg == "unicode" && id.Name == "IsDigit") { // frozen: the only Nd code points below U+0100 are '0'..'9'
 
@@ -502,7 +575,7 @@ func C14(c *core.Ctx) {
 				}
 			})
 		}
-		c.Decide(bad == "" && nCmp >= 4, "R14.4", "legal-text-is-ascii-table", p.Pos(lg.Pos()), fmt.Sprintf("isLegalCompText is %d comparisons with ASCII constants (plus IsAlphabet)", nCmp), "isLegalCompText is no longer a pure ASCII table ("+bad+"): bytes ≥ 0x80 can be written unescaped and do not parse back to the same value")
+		c.Decide(bad == "" && nCmp >= 2, "R14.4", "legal-text-is-ascii-table", p.Pos(lg.Pos()), fmt.Sprintf("isLegalCompText is %d comparisons with ASCII constants and ASCII-only classifier calls", nCmp), "isLegalCompText is no longer a pure ASCII table ("+bad+"): bytes ≥ 0x80 can be written unescaped and do not parse back to the same value")
 	}
 	// ---- R14.5 the hash functions keep their scratch state local (no package-level buffer)
 	for _, hf := range [][2]string{{"Component", "HashInto"}, {"Component", "Hash"}, {"Name", "Hash"}, {"Name", "PrefixHash"}} {
